@@ -636,6 +636,75 @@ func c12ServerFraming(w *core.W, j int) {
 	w.Count("hook_hits_readTCP", ctl.Hits()["readTCP.deadlineSet"])
 }
 
+// c12ClientDatagramSizes: a datagram reply of exactly the size the client said it takes - by an OPT record
+// in the query, by Client.UDPSize, by Conn.UDPSize, or by saying nothing (512) - reaches the caller intact,
+// and so does the one that is an octet shorter; the exchange that follows on the same Conn is not disturbed.
+func c12ClientDatagramSizes(w *core.W, j int) {
+	type mode struct {
+		name string
+		size int
+	}
+	modes := []mode{{"default", 512}, {"opt", 512}, {"opt", 1232}, {"opt", 4096}, {"opt", 65535}, {"client-udpsize", 1232}, {"client-udpsize", 4096}, {"client-udpsize", 65535},
+		{"conn-udpsize", 1232}, {"conn-udpsize", 16384}, {"opt", 513 + j%700}, {"client-udpsize", 513 + j%3000}}
+	md := modes[j%len(modes)]
+	for k, size := range []int{md.size, md.size - 1, 17, md.size} {
+		q := new(dns.Msg)
+		q.SetQuestion("q.", dns.TypeNULL)
+		q.Id = uint16(0x3000 + j*4 + k)
+		cli := &dns.Client{Timeout: 2 * time.Second}
+		rep := sizedMsg(size, q.Id, byte(j+k))
+		rep.Response = true
+		want, err := rep.Pack()
+		if err != nil || len(want) != size && size >= 30 {
+			continue
+		}
+		follow := new(dns.Msg)
+		follow.SetQuestion("next.", dns.TypeA)
+		follow.Id = q.Id ^ 0x8000
+		frep := new(dns.Msg)
+		frep.SetReply(follow)
+		fwire, _ := frep.Pack()
+		sc := netsim.NewScripted([][]byte{want, fwire})
+		co := &dns.Conn{Conn: sc}
+		switch md.name {
+		case "opt":
+			q.SetEdns0(uint16(md.size), false)
+		case "client-udpsize":
+			cli.UDPSize = uint16(md.size)
+		case "conn-udpsize":
+			co.UDPSize = uint16(md.size)
+		}
+		var r1, r2 *dns.Msg
+		var e1, e2 error
+		w.Eval(1)
+		w.Count("client_datagram_size_exchanges", 1)
+		w.Cover("client_datagram_size_mode", md.name)
+		wit := map[string]any{"mode": md.name, "advertised": md.size, "reply_octets": len(want)}
+		if !within(c12Watch, func() {
+			r1, _, e1 = cli.ExchangeWithConn(q, co)
+			if md.name == "opt" {
+				follow.SetEdns0(uint16(md.size), false)
+			}
+			r2, _, e2 = cli.ExchangeWithConn(follow, co)
+		}) {
+			w.Violation("C12/datagram-exchange-hang", "two exchanges on one scripted datagram Conn did not return", wit)
+			return
+		}
+		if e1 != nil || r1 == nil {
+			w.Violation("C12/datagram-reply-of-advertised-size-lost/"+md.name, fmt.Sprintf("a reply of %d octets to a client that takes %d: %v", len(want), md.size, e1), wit)
+			continue
+		}
+		if got, perr := r1.Pack(); perr != nil || !bytes.Equal(got, want) {
+			w.Violation("C12/datagram-reply-of-advertised-size-mangled/"+md.name, fmt.Sprintf("a reply of %d octets to a client that takes %d came back different (%v)", len(want), md.size, perr), wit)
+			continue
+		}
+		if e2 != nil || r2 == nil || r2.Id != follow.Id {
+			w.Violation("C12/datagram-exchange-after-large-reply-disturbed/"+md.name, fmt.Sprintf("the exchange after a %d-octet reply on the same Conn: %v", len(want), e2), wit)
+		}
+	}
+	w.NontrivialStr("client-datagram-sizes", md.name, fmt.Sprint(md.size))
+}
+
 // c12ServerDatagramSizes: a real Server on a simulated datagram socket is handed requests of every
 // size from the smallest message there is (12 octets) to the largest the socket takes: with a policy
 // that accepts everything, the handler sees each one unchanged and its reply comes back.
@@ -1676,6 +1745,7 @@ func init() {
 		section{"multihomed", tiered(8, 100), c12MultiHomed},
 		section{"async-handlers", tiered(30, 600), c12Async},
 		section{"server-datagram-sizes", tiered(6, 100), c12ServerDatagramSizes},
+		section{"client-datagram-sizes", tiered(24, 600), c12ClientDatagramSizes},
 	)
 	core.Register(&core.Monitor{
 		ID: "C12", Level: "fault_enumeration", Plan: plan, Run: run, Race: true, Terminates: true, MaxParallel: 8,
